@@ -702,6 +702,14 @@ func TestVerifC11(t *testing.T) {
 			atts = append(atts, att{"contract", 2, r.bytes(32), []byte{0, 255}, d, vc11Pad32(names[(i+3)%len(names)]), vc11Pad32(nm), true})
 		}
 	}
+	// the all-zero (native ALPH) token id: attestToken takes decimals / symbol / name from its caller for this id as for any other,
+	// so the payload must decode to what was encoded - canonical (18, ALPH, Alephium) or not
+	zeroId := make([]byte, 32)
+	for _, d := range []byte{0, 8, 18, 255} {
+		for _, sn := range [][2]string{{"ALPH", "Alephium"}, {"FAKE", "Alephium"}, {"ALPH", "Fake Coin"}, {"", ""}, {"alph", "alephium"}} {
+			atts = append(atts, att{"contract-native-id", 2, zeroId, []byte{0, 255}, d, vc11Pad32([]byte(sn[0])), vc11Pad32([]byte(sn[1])), true})
+		}
+	}
 	inner := [][]byte{append([]byte("ab"), make([]byte, 30)...), append(append(make([]byte, 10), []byte("a\x00b")...), make([]byte, 19)...), make([]byte, 32), append([]byte{0}, bytes.Repeat([]byte("q"), 31)...),
 		append(bytes.Repeat([]byte("q"), 31), 0), append(append(make([]byte, 5), []byte("mid")...), make([]byte, 24)...)}
 	for _, s := range inner {
@@ -782,6 +790,9 @@ func TestVerifC11(t *testing.T) {
 		}
 		for i := 0; i < nRal; i++ {
 			idb := r.bytes(l.Sizes["localTokenId"])
+			if i%6 == 5 {
+				idb = make([]byte, l.Sizes["localTokenId"]) // the native token id
+			}
 			dec := []uint64{0, 8, 18, 255}[i%4]
 			sym := padTo(names[1+i%8], l.Sizes["symbol"])
 			nm := padTo(names[1+(i+3)%8], l.Sizes["name"])
